@@ -20,9 +20,14 @@ for _p in sorted(glob.glob(os.path.join(_here, "reg", "*.py"))):
         if _k in REGISTRY:
             raise RuntimeError("duplicate check " + _k)
         REGISTRY[_k] = _v
-    _ALSO.append(getattr(_m, "ALSO", {}))
+    _ALSO.append((os.path.basename(_p)[:-3], getattr(_m, "ALSO", {})))
 # growth modules attach additional pipelines (spec + driver + judge) to existing properties
-for _a in _ALSO:
+# (only modules listed in tools/also_enabled.txt: a growth module is attached once it passed on the unchanged tree)
+_enabled = set(l.strip() for l in open(os.path.join(_here, "also_enabled.txt")) if l.strip() and not l.startswith("#")) \
+    if os.path.exists(os.path.join(_here, "also_enabled.txt")) else set()
+for _name, _a in _ALSO:
+    if _name not in _enabled:
+        continue
     for _k, _pipes in _a.items():
         if _k in REGISTRY:
             REGISTRY[_k] = dict(REGISTRY[_k], also=list(REGISTRY[_k].get("also", [])) + list(_pipes))
